@@ -263,8 +263,17 @@ def run(res):
             dmdp = rng.choice([None, None, True, False])
             fl = (not nodrf, not nodmd, drfp, dmdp)
             # destination: missing, empty, or with some files (some colliding)
-            dmode = rng.choice(["missing", "empty", "files", "files"])
+            dmode = rng.choice(["missing", "empty", "files", "files", "linked"])
             dst_store = {}
+            dst_links = []
+            if dmode == "linked":
+                # the destination already holds hard links to some source files (an earlier `drf ln`, then cp / mv
+                # of the same selection): cp must leave both, mv must still remove them from the source
+                srcs = store_of(ct)
+                allp = sorted(srcs)
+                for p in rng.sample(allp, min(len(allp), rng.choice([1, 2, len(allp)]))):
+                    dst_store[p] = srcs[p]
+                    dst_links.append(p)
             if dmode == "files":
                 allp = sorted(store_of(ct))
                 for p in rng.sample(allp, min(len(allp), rng.choice([0, 1, 2]))):
@@ -273,7 +282,7 @@ def run(res):
                 counter[0] += 1
                 dst_store["unrelated/keep.txt"] = counter[0]
             metas.append(dict(ti=ti, tname=tname, ct=ct, op=op, chs=chs_arg, pairs=pairs, only=only, reverse=reverse,
-                              st=st, en=en, en_rel=en_rel, fl=fl, dmode=dmode, dst=dst_store))
+                              st=st, en=en, en_rel=en_rel, fl=fl, dmode=dmode, dst=dst_store, dst_links=dst_links))
     # ---- model: one runner case per (src, dest) pair; when the selected channels overlap (one
     # contains another, or one is named twice) the pairs see each other's effects and are evaluated
     # one after the other instead
@@ -313,6 +322,11 @@ def run(res):
         if m["dmode"] != "missing":
             os.makedirs(dest)
             for p, c in m["dst"].items():
+                if p in m["dst_links"] and not cross:
+                    os.makedirs(os.path.dirname(os.path.join(dest, p)), exist_ok=True)
+                    os.link(os.path.join(src, p), os.path.join(dest, p))
+                    res.count("destination-file-is-a-hard-link-of-the-source-file")
+                    continue
                 L.touch(os.path.join(dest, p))
                 with open(os.path.join(dest, p), "w") as f:
                     f.write("content-%d" % c)
@@ -372,6 +386,8 @@ def run(res):
         inp = {"argv": argv[:1] + ["<src>", "<dest>"] + argv[3:], "tree": m["ct"], "dest_before": m["dst"]}
         if cross:
             inp["dest_on_another_filesystem"] = other_fs or "EXDEV injected"
+        if m["dst_links"] and not cross:
+            inp["dest_hard_links_of_source"] = list(m["dst_links"])
         res.case((m["tname"], json.dumps(m["ct"], sort_keys=True), tuple(inp["argv"]), json.dumps(m["dst"], sort_keys=True)),
                  nontrivial=(dfiles.keys() != set(m["dst"].keys())) or err is not None)
         res.count("op:" + m["op"])
@@ -526,6 +542,10 @@ def replay(res, rp):
         print("destination on another file system:", dest)
     write_ctree(src, i["tree"])
     for p, c in (i.get("dest_before") or {}).items():
+        if p in (i.get("dest_hard_links_of_source") or []):
+            os.makedirs(os.path.dirname(os.path.join(dest, p)), exist_ok=True)
+            os.link(os.path.join(src, p), os.path.join(dest, p))
+            continue
         L.touch(os.path.join(dest, p))
         with open(os.path.join(dest, p), "w") as f:
             f.write("content-%d" % c)
